@@ -16,10 +16,12 @@
            LicModel.py_eval (exhaustive sweep over all guard-passing skeletons up to the length bound of the run + depth probes); that
            str.lower/split/replace and re.match behave like LicModel.lower/split_ws/rep2/ref_match (probed over all code points).
            Every theorem below is for all inputs. *)
-From Coq Require Import List NArith Bool.
+From Coq Require Import String List NArith Bool.
 Import ListNotations.
 Require Import VParse LicModel LicAuto LicSpec LicLex LicCode LicIdem LicGrammar LicTable LicTop LicFinal SpdxTable.
+Require Import Show LicIds LicLayout LicTree LicFinalB LicSpecX RunLic.
 Open Scope N_scope.
+Notation "'txt' s" := (asc s%string) (at level 0, s at level 0, only parsing).
 
 (* 1. the function computes the specification: it accepts exactly the SPDX expressions over the tables, in any ASCII case and whitespace
       layout, rejects everything else, and returns the canonical text; the only deviation is the interpreter's nesting limit
@@ -69,13 +71,35 @@ Theorem C19_layout_insensitive s s' : spdx_tokens s = spdx_tokens s' -> canonica
 Proof. exact (final_layout s s'). Qed.
 Print Assumptions C19_layout_insensitive.
 
-(* 6. everything else is rejected with the documented exception: no other exception for any input whatsoever (and any table) *)
+(* 6. everything else is rejected with the documented exception: no other exception for any input whatsoever (and any table).
+      What this says and what it does not (see also 6b below): the only Python-level failure the function's own statements could hit
+      is the subscript TABLE[token] of the final loop; the model keeps it visible as `Crash` (lookup = None after mem = true) and this
+      theorem says the `in TABLE` guard in front of it makes it unreachable, for every table.  Exceptions raised INSIDE eval()
+      (SyntaxError, MemoryError "parser stack overflowed", RecursionError) are all subclasses of Exception and are caught by the code's
+      `except Exception` -> rejection; that is the EvBad / EvLimit part of LicModel.py_eval and belongs to the trusted reading of eval().
+      A BaseException that is not an Exception (KeyboardInterrupt, SystemExit) cannot originate from a False/or/and/parenthesis
+      expression and is not represented in `result`; non-str arguments are outside the domain.  The run-time side of this clause is
+      the runner's !EXC:<Class> report on every l.canon case, including the stream of arbitrary code points (surrogates included). *)
 Theorem C19_only_the_documented_exception s : canonicalize_license_expression s <> Crash.
 Proof. exact (canon_no_crash licenses exceptions s). Qed.
 Print Assumptions C19_only_the_documented_exception.
 Theorem C19_empty_rejected : canonicalize_license_expression [] = Err.
 Proof. reflexivity. Qed.
 Print Assumptions C19_empty_rejected.
+(* 6b. the same clause stated positively: every input yields a value, the documented rejection, or (depth 101..200) one of the two;
+       and the reason: a table subscript behind its `in` guard cannot fail; the two token lists the final loop zips are equally long
+       (zip() drops nothing: the model's `combine` does not hide a truncation) *)
+Theorem C19_value_or_documented_exception s :
+  (exists o, canonicalize_license_expression s = Ok o) \/ canonicalize_license_expression s = Err \/
+  (exists o, canonicalize_license_expression s = Limit o).
+Proof. exact (finalb_total s). Qed.
+Print Assumptions C19_value_or_documented_exception.
+Theorem C19_guarded_subscript_cannot_fail k tbl : mem k tbl = true -> exists id, lookup k tbl = Some id.
+Proof. exact (finalb_guarded_lookup k tbl). Qed.
+Print Assumptions C19_guarded_subscript_cannot_fail.
+Theorem C19_zip_drops_nothing s : length (split_ws (pad s)) = length (split_ws (lower (pad s))).
+Proof. exact (finalb_zip_lengths s). Qed.
+Print Assumptions C19_zip_drops_nothing.
 
 (* 7. identifiers are ASCII: an accepted input consists of ASCII characters and whitespace only; any other character - U+212A KELVIN
       SIGN (lower-cases to "k"), U+0130, U+017F ... - makes the expression invalid *)
@@ -93,6 +117,88 @@ Print Assumptions C19_non_ascii_rejected.
 Theorem C19_table_invariants : table_ok licenses exceptions = true /\ NoDup (map fst licenses) /\ NoDup (map fst exceptions).
 Proof. exact (conj spdx_table_ok spdx_keys_nodup). Qed.
 Print Assumptions C19_table_invariants.
+
+(* 9. "known identifier", declaratively.  A token w is a simple expression with canonical spelling o  iff  w = core ++ plus where plus
+      is "+" exactly when w ends in "+", and either core is "LicenseRef-" (any ASCII case) followed by letters, digits, "." and "-"
+      only (then o = "LicenseRef-" + the suffix as written + plus), or core does not start with "licenseref-" and equals, up to ASCII
+      case, an id of the licence table (then o = that id + plus).  An exception identifier is an id of the exception table up to ASCII
+      case.  (Audit form first, then with the LicenseRef branch split into prefix and suffix.) *)
+Theorem C19_simple_ids w o : lic_canon licenses w = Some o <->
+  exists core plus, w = core ++ plus /\ ((plus = [] /\ last_is 43 w = false) \/ plus = [43]) /\
+    ((prefixb licenseref_lc (afold core) = true /\ forallb ref_char core = true /\ o = licenseref_prefix ++ skipn 11 core ++ plus) \/
+     (prefixb licenseref_lc (afold core) = false /\ exists id, In id (map snd licenses) /\ afold id = afold core /\ o = id ++ plus)).
+Proof. exact (finalb_simple_ids w o). Qed.
+Print Assumptions C19_simple_ids.
+Theorem C19_simple_ids_readable w o : lic_canon licenses w = Some o <->
+  exists core plus, w = core ++ plus /\ ((plus = [] /\ last_is 43 w = false) \/ plus = [43]) /\
+    ((exists p suffix, core = p ++ suffix /\ afold p = licenseref_lc /\ forallb ref_char suffix = true /\
+                       o = licenseref_prefix ++ suffix ++ plus) \/
+     (prefixb licenseref_lc (afold core) = false /\ exists id, In id (map snd licenses) /\ afold id = afold core /\ o = id ++ plus)).
+Proof. exact (finalb_simple_ids_readable w o). Qed.
+Print Assumptions C19_simple_ids_readable.
+Theorem C19_exception_ids w o : exc_canon exceptions w = Some o <-> In o (map snd exceptions) /\ afold o = afold w.
+Proof. exact (finalb_exception_ids w o). Qed.
+Print Assumptions C19_exception_ids.
+(* the character class of a LicenseRef suffix, spelled out; and: no id of the bundled licence table starts with "licenseref-" *)
+Theorem C19_ref_characters c : ref_char c = true <-> (65 <= c <= 90) \/ (97 <= c <= 122) \/ (48 <= c <= 57) \/ c = 46 \/ c = 45.
+Proof. exact (ref_char_iff c). Qed.
+Print Assumptions C19_ref_characters.
+Theorem C19_no_table_id_is_a_licenseref id : In id (map snd licenses) -> prefixb licenseref_lc (afold id) = false.
+Proof. intros H. pose proof finalb_no_licenseref_in_table as T. rewrite forallb_forall in T. now apply negb_true_iff, T. Qed.
+Print Assumptions C19_no_table_id_is_a_licenseref.
+(* 9b. where this reading differs from SPDX proper (Annex D: license-ref = "LicenseRef-" idstring, idstring = 1*(ALPHA/DIGIT/"-"/"."),
+       simple-expression = license-id / license-id "+" / license-ref): exactly two extra forms - a LicenseRef with EMPTY idstring
+       ("LicenseRef-", "licenseref-+") and a LicenseRef followed by "+".  "GPL-2.0++" is license-id "+" with the (deprecated) table id
+       "GPL-2.0+", i.e. within SPDX proper. *)
+Theorem C19_simple_ids_vs_spdx_proper w o : lic_canon licenses w = Some o <->
+  strict_simple licenses w o \/
+  (ref_empty_suffix w /\ o = licenseref_prefix ++ skipn 11 w) \/
+  (ref_with_plus w /\ o = licenseref_prefix ++ skipn 11 w).
+Proof. exact (finalb_vs_strict w o). Qed.
+Print Assumptions C19_simple_ids_vs_spdx_proper.
+
+(* 10. single spaces and tight parentheses, as a statement about the text (LicLayout.text_layout, unfolded here): not empty; no leading
+       or trailing blank; U+0020 is the only whitespace character; no "  ", no "( ", no " )"; ")" is followed by ")" or " " and "(" is
+       preceded by "(" or " " (so every other pair of tokens is separated by exactly one U+0020, given C19_canonical_form's
+       spdx_tokens o = out) *)
+Theorem C19_textual_layout s o : (canonicalize_license_expression s = Ok o \/ canonicalize_license_expression s = Limit o) ->
+  o <> [] /\ hd 0 o <> 32 /\ last o 0 <> 32 /\
+  (forall c, In c o -> is_ws c = true -> c = 32) /\
+  ~ occurs [32; 32] o /\ ~ occurs [40; 32] o /\ ~ occurs [32; 41] o /\
+  (forall x c y, o = x ++ 41 :: c :: y -> c = 41 \/ c = 32) /\
+  (forall x c y, o = x ++ c :: 40 :: y -> c = 40 \/ c = 32).
+Proof. exact (finalb_text_layout s o). Qed.
+Print Assumptions C19_textual_layout.
+
+(* 11. same structure, at the level of expression trees: the input tokens are the tokens of a well-formed tree e, the tokens of the
+       result are the tokens of the same tree with every leaf in its canonical spelling (canon_expr: a map over the leaves, same shape),
+       which is well-formed and its own canonical tree *)
+Theorem C19_same_tree s o : (canonicalize_license_expression s = Ok o \/ canonicalize_license_expression s = Limit o) ->
+  exists e, expr_ok licenses exceptions e /\
+            map classify (spdx_tokens s) = expr_tokens e /\
+            map classify (spdx_tokens o) = expr_tokens (canon_expr licenses exceptions e) /\
+            expr_ok licenses exceptions (canon_expr licenses exceptions e) /\
+            canon_expr licenses exceptions (canon_expr licenses exceptions e) = canon_expr licenses exceptions e /\
+            shape (canon_expr licenses exceptions e) = shape e.
+Proof. exact (finalb_tree s o). Qed.
+Print Assumptions C19_same_tree.
+
+(* 12. idempotent in the interpreter-dependent band as well: the result of a depth-101..200 expression is again such an expression
+       with itself as result *)
+Theorem C19_idempotent_limit s o : canonicalize_license_expression s = Limit o -> canonicalize_license_expression o = Limit o.
+Proof. exact (finalb_idempotent_limit s o). Qed.
+Print Assumptions C19_idempotent_limit.
+
+(* 13. the observation command l.spec, which the correspondence run compares with the harness-side Python reading of the property,
+       prints the specification of theorem 1 (run under another name for the sake of the extraction) *)
+Theorem C19_spec_observation_is_the_specification s :
+  obs_spec s = match spec_canon licenses exceptions s with
+               | None => txt "N"
+               | Some o => txt "S|" ++ (if nests_deeper_than 200 (spdx_tokens s) then txt "2"
+                                        else if nests_deeper_than 100 (spdx_tokens s) then txt "1" else txt "0") ++ txt "|" ++ o
+               end.
+Proof. unfold obs_spec. now rewrite spec_canon_x_eq. Qed.
+Print Assumptions C19_spec_observation_is_the_specification.
 
 (* the one deviation of the code from the property, as a fact about the faithful model *)
 (* 201 nested parentheses around MIT: an SPDX expression, rejected *)
@@ -117,3 +223,57 @@ Example C19_nonvacuous :
             65;78;68;32;76;105;99;101;110;115;101;82;101;102;45;77;121;46;82;101;102;41] in
   canonicalize_license_expression s = Ok o /\ spec_canon licenses exceptions s = Some o /\ canonicalize_license_expression o = Ok o.
 Proof. repeat split; vm_compute; reflexivity. Qed.
+
+(* non-vacuity of 9-12 as closed boolean computations *)
+Definition opt_is (a : option (list N)) (b : option (list N)) : bool :=
+  match a, b with Some x, Some y => streq x y | None, None => true | _, _ => false end.
+Definition C19_ids_check : bool :=
+  opt_is (lic_canon licenses (txt "licenseref-My.Ref+")) (Some (txt "LicenseRef-My.Ref+")) &&
+  opt_is (lic_canon licenses (txt "apache-2.0")) (Some (txt "Apache-2.0")) &&
+  opt_is (lic_canon licenses (txt "gpl-2.0++")) (Some (txt "GPL-2.0++")) &&          (* license-id "GPL-2.0+" followed by "+" *)
+  opt_is (lic_canon licenses (txt "LICENSEREF-")) (Some (txt "LicenseRef-")) &&      (* empty idstring: the code's reading *)
+  opt_is (lic_canon licenses (txt "licenseref-+")) (Some (txt "LicenseRef-+")) &&
+  opt_is (lic_canon licenses (txt "LicenseRef-a_b")) None &&
+  opt_is (lic_canon licenses (txt "LicenseRef-a+b")) None &&
+  opt_is (lic_canon licenses (txt "mit-")) None &&
+  opt_is (exc_canon exceptions (txt "llvm-EXCEPTION")) (Some (txt "LLVM-exception")) &&
+  opt_is (exc_canon exceptions (txt "mit")) None.
+Example C19_ids_nonvacuous : C19_ids_check = true.
+Proof. vm_compute. reflexivity. Qed.
+
+Definition is_ok_text (s o : list N) : bool := match canonicalize_license_expression s with Ok x => streq x o | _ => false end.
+Definition C19_layout_check : bool :=
+  is_ok_text (txt " ( mit )or(gd AND( isc ) ) ") (txt "(MIT) OR (GD AND (ISC))") &&
+  adj lay (txt "(MIT) OR (GD AND (ISC))") &&
+  negb (adj lay (txt "( MIT)")) && negb (adj lay (txt "(MIT )")) && negb (adj lay (txt "MIT  OR GD")) &&
+  negb (adj lay (txt "(MIT)OR GD")) && negb (adj lay (txt "MIT OR(GD)")).
+Example C19_layout_nonvacuous : C19_layout_check = true.
+Proof. vm_compute. reflexivity. Qed.
+
+Definition tok_eqb (a b : tok (list N)) : bool :=
+  match a, b with
+  | TOr _, TOr _ | TAnd _, TAnd _ | TWith _, TWith _ | TL _, TL _ | TR _, TR _ => true
+  | TId _ x, TId _ y => streq x y
+  | _, _ => false
+  end.
+Fixpoint toks_eqb (a b : list (tok (list N))) : bool :=
+  match a, b with [], [] => true | x :: a', y :: b' => tok_eqb x y && toks_eqb a' b' | _, _ => false end.
+Definition C19_tree_check : bool :=
+  let e := Or _ (Paren _ (Simple _ (txt "mit"))) (And _ (WithExc _ (txt "apache-2.0+") (txt "LLVM-EXCEPTION")) (Simple _ (txt "licenseref-My.Ref"))) in
+  let s := txt "(mit)or apache-2.0+ WITH LLVM-EXCEPTION and licenseref-My.Ref" in
+  let o := txt "(MIT) OR Apache-2.0+ WITH LLVM-exception AND LicenseRef-My.Ref" in
+  is_ok_text s o &&
+  toks_eqb (map classify (spdx_tokens s)) (expr_tokens e) &&
+  toks_eqb (map classify (spdx_tokens o)) (expr_tokens (canon_expr licenses exceptions e)).
+Example C19_tree_nonvacuous : C19_tree_check = true.
+Proof. vm_compute. reflexivity. Qed.
+
+(* depth 101: interpreter dependent, and the result is a fixed point in the same band *)
+Definition C19_limit_check : bool :=
+  let s := repeat 40 101 ++ txt "mit" ++ repeat 41 101 in
+  match canonicalize_license_expression s with
+  | Limit o => match canonicalize_license_expression o with Limit o' => streq o o' | _ => false end
+  | _ => false
+  end.
+Example C19_limit_nonvacuous : C19_limit_check = true.
+Proof. vm_compute. reflexivity. Qed.
